@@ -13,6 +13,7 @@ import (
 	"fmt"
 	"reflect"
 	"sort"
+	"strings"
 )
 
 // ---- independent CBOR writer ------------------------------------------------------------------
@@ -663,6 +664,41 @@ func boundedAcceptance() (ok bool) {
 		if _, err := DecodeAndValidateClaimsFromCBOR(tok); (err == nil) != tc.ok {
 			fmt.Printf("bounded: acceptance: p1 measurements case %v: accepted=%v want %v (%v)\n", tc.extra, err == nil, tc.ok, err)
 			return false
+		}
+	}
+	// "every getter of an accepted token returns exactly the value carried on the wire, software
+	// components in wire order with their optional fields intact": tokens written by the independent
+	// writer with three components (all optional fields / none / some, distinct values), both profiles
+	{
+		c1 := wMap([]kv{{1, wText("BL")}, {2, wBytes(hBytes(32, 0x11))}, {4, wText("1.2.3")}, {5, wBytes(hBytes(48, 0x22))}, {6, wText("sha-256")}})
+		c2 := wMap([]kv{{5, wBytes(hBytes(32, 0x33))}, {2, wBytes(hBytes(64, 0x44))}})
+		c3 := wMap([]kv{{2, wBytes(hBytes(48, 0x55))}, {5, wBytes(hBytes(32, 0x66))}, {4, wText("")}, {1, wText("")}})
+		want := " 0: " + fmt.Sprintf("%x <nil> | %x <nil> | %q <nil> | %q <nil> | %q <nil>", hBytes(32, 0x11), hBytes(48, 0x22), "BL", "1.2.3", "sha-256")
+		toks := map[string][]byte{
+			"p2": wMap([]kv{{265, wText(Profile2Name)}, {2394, wInt(-2147483648)}, {2395, wInt(0x60ff)}, {2396, wBytes(hBytes(32, 0x77))}, {2397, wBytes(hBytes(8, 0x88))},
+				{2399, wArray(c1, c2, c3)}, {10, wBytes(hBytes(64, 0x99))}, {256, inst}, {2400, wText("https://v/é")}, {2398, wText("1234567890123-54321")}}),
+			"p1": wMap([]kv{{-75000, wText(Profile1Name)}, {-75001, wInt(2147483647)}, {-75002, wInt(0x10ff)}, {-75003, wBytes(hBytes(32, 0x77))}, {-75004, wBytes(hBytes(32, 0x88))},
+				{-75006, wArray(c1, c2, c3)}, {-75008, wBytes(hBytes(48, 0x99))}, {-75009, inst}, {-75010, wText("https://v/é")}, {-75005, wText("1234567890123")}}),
+		}
+		for name, tok := range toks {
+			c, err := DecodeAndValidateClaimsFromCBOR(tok)
+			if err != nil {
+				fmt.Printf("bounded: acceptance: conformant %s token with three components refused: %v\n", name, err)
+				return false
+			}
+			v := getterView(c)
+			wantClient, wantLC, wantBoot, wantNonce, wantCert := "-2147483648", "0x60ff", hBytes(8, 0x88), hBytes(64, 0x99), "1234567890123-54321"
+			if name == "p1" {
+				wantClient, wantLC, wantBoot, wantNonce, wantCert = "2147483647", "0x10ff", hBytes(32, 0x88), hBytes(48, 0x99), "1234567890123"
+			}
+			for _, frag := range []string{"client: " + wantClient + "\n", "lifecycle: " + wantLC + "\n", fmt.Sprintf("impl: %#v\n", hBytes(32, 0x77)), fmt.Sprintf("bootseed: %#v\n", wantBoot),
+				fmt.Sprintf("nonce: %#v\n", wantNonce), fmt.Sprintf("inst: %#v\n", hInstID()), fmt.Sprintf("certref: %#v\n", wantCert), fmt.Sprintf("vsi: %#v\n", "https://v/é"), "components: 3\n", want + "\n",
+				fmt.Sprintf(" 1: %x <nil> | %x <nil> | ", hBytes(64, 0x44), hBytes(32, 0x33)), fmt.Sprintf(" 2: %x <nil> | %x <nil> | \"\" <nil> | \"\" <nil> | ", hBytes(48, 0x55), hBytes(32, 0x66))} {
+				if !strings.Contains(v, frag) {
+					fmt.Printf("bounded: acceptance: %s getters do not return the wire values: missing %q in\n%s", name, frag, v)
+					return false
+				}
+			}
 		}
 	}
 	// indefinite-length map, trailing bytes, unknown profile
